@@ -18,7 +18,7 @@ Local Open Scope list_scope.
 
 Definition class_of_err (e : err) : option res :=
   let f := err_fmt e in
-  if String.eqb (err_typ e) "notation.ErrorPushSignatureFailed" then Some EPush
+  if String.eqb (err_typ e) "notation.PushSignatureFailedError" then Some EPush
   else if String.eqb f "signer cannot be nil" then Some EArgSigner
   else if String.eqb f "expiry duration cannot be a negative value" then Some EArgExpiryNeg
   else if String.eqb f "expiry duration supports minimum granularity of seconds" then Some EArgExpiryGran
@@ -210,4 +210,680 @@ Proof.
   intros Pool Cert signer o tbl st c st' t d Hs He Hm Hg Hrun Hr Hl Hd Hn Hk.
   apply (accepts tbl st c st' t d); try assumption.
   apply (gen_validateSignArguments_nil_iff Pool Cert c signer o Hs He Hm). exact Hg.
+Qed.
+
+(* ---------- addUserMetadataToDescriptor (notation.go:266) ----------
+   GoLite translates the function with value semantics (the translator checked that the map it
+   writes is, on every path, one it created: path-sensitive ownership). The model's [add_meta false]
+   is the same statement over the heap: it writes an [AFresh] map and leaves the heap alone
+   ([add_meta_false_heap]). Maps are compared as maps ([ann_eqv]: same value for every key). *)
+
+Definition ann_eqv (a b : amap) : Prop := forall k, lookup k a = lookup k b.
+
+Definition same_fields (d d' : v1_Descriptor) : Prop :=
+  Descriptor_MediaType d' = Descriptor_MediaType d /\ Descriptor_Digest d' = Descriptor_Digest d
+  /\ Descriptor_Size d' = Descriptor_Size d /\ Descriptor_URLs d' = Descriptor_URLs d
+  /\ Descriptor_Data d' = Descriptor_Data d /\ Descriptor_Platform d' = Descriptor_Platform d
+  /\ Descriptor_ArtifactType d' = Descriptor_ArtifactType d.
+
+Lemma same_fields_refl d : same_fields d d.
+Proof. repeat split. Qed.
+
+Lemma same_fields_set a d : same_fields d (set_Descriptor_Annotations a d).
+Proof. destruct d. repeat split. Qed.
+
+Lemma same_fields_trans a b c : same_fields a b -> same_fields b c -> same_fields a c.
+Proof. unfold same_fields. intuition congruence. Qed.
+
+Lemma ann_set a d : Descriptor_Annotations (set_Descriptor_Annotations a d) = a.
+Proof. destruct d. reflexivity. Qed.
+
+Lemma lookup_map_set k v (m : amap) x :
+  lookup x (map_set String.eqb k v m) = if String.eqb x k then Some v else lookup x m.
+Proof. rewrite <- !map_get_lookup. apply map_get_set. exact string_eqb_spec'. Qed.
+
+(* the reserved prefixes the code ranges over are the generated constant the model uses *)
+Lemma gen_reserved_prefixes_pinned :
+  notation_go_reservedAnnotationPrefixes = gen_reserved_annotation_prefixes.
+Proof.
+  first [ reflexivity
+        | fail 1 "the reserved annotation prefixes of notation.go differ from Generated.v" ].
+Qed.
+
+Definition err_reserved : option err :=
+  Some (Err "fmt" "error adding user metadata: metadata key %v has reserved prefix %v" []).
+Definition err_present : option err :=
+  Some (Err "fmt" "error adding user metadata: metadata key %v is already present in the target artifact" []).
+
+Lemma class_reserved : res_of err_reserved = Some (Some EMetaReserved).
+Proof. vm_compute. reflexivity. Qed.
+Lemma class_present : res_of err_present = Some (Some EMetaPresent).
+Proof. vm_compute. reflexivity. Qed.
+
+(* the inner loop over the reserved prefixes (two copies: one per copy of the outer loop) *)
+Lemma add_loop3 K k d : forall l,
+  gen_notation_go_addUserMetadataToDescriptor_loop3 K k d l
+  = if existsb (fun p => has_prefix p k) l then (d, err_reserved) else K tt.
+Proof.
+  induction l as [|p l IH]; [reflexivity|].
+  cbn [gen_notation_go_addUserMetadataToDescriptor_loop3 existsb]. unfold str_has_prefix.
+  destruct (has_prefix p k); [reflexivity|exact IH].
+Qed.
+
+Lemma add_loop5 K k d : forall l,
+  gen_notation_go_addUserMetadataToDescriptor_loop5 K k d l
+  = if existsb (fun p => has_prefix p k) l then (d, err_reserved) else K tt.
+Proof.
+  induction l as [|p l IH]; [reflexivity|].
+  cbn [gen_notation_go_addUserMetadataToDescriptor_loop5 existsb]. unfold str_has_prefix.
+  destruct (has_prefix p k); [reflexivity|exact IH].
+Qed.
+
+(* the loop over the metadata, on descriptors *)
+Fixpoint gadd (es : amap) (d : v1_Descriptor) : v1_Descriptor * option err :=
+  match es with
+  | [] => (d, None)
+  | (k, v) :: es' =>
+      if reserved k then (d, err_reserved)
+      else match lookup k (Descriptor_Annotations d) with
+           | Some _ => (d, err_present)
+           | None => gadd es' (set_Descriptor_Annotations
+                                 (map_set String.eqb k v (Descriptor_Annotations d)) d)
+           end
+  end.
+
+Lemma add_loop2 K : forall es d,
+  gen_notation_go_addUserMetadataToDescriptor_loop2 K es d
+  = match gadd es d with (d', None) => K d' | r => r end.
+Proof.
+  induction es as [|[k v] es IH]; intros d; [reflexivity|].
+  cbn [gen_notation_go_addUserMetadataToDescriptor_loop2 gadd fst snd]. cbv zeta.
+  rewrite add_loop3, gen_reserved_prefixes_pinned. fold (reserved k).
+  destruct (reserved k); [reflexivity|].
+  unfold map_get_ok. rewrite map_get_lookup.
+  destruct (lookup k (Descriptor_Annotations d)); [reflexivity|]. apply IH.
+Qed.
+
+Lemma add_loop4 : forall es d,
+  gen_notation_go_addUserMetadataToDescriptor_loop4 es d = gadd es d.
+Proof.
+  induction es as [|[k v] es IH]; intros d; [reflexivity|].
+  cbn [gen_notation_go_addUserMetadataToDescriptor_loop4 gadd fst snd]. cbv zeta.
+  rewrite add_loop5, gen_reserved_prefixes_pinned. fold (reserved k).
+  destruct (reserved k); [reflexivity|].
+  unfold map_get_ok. rewrite map_get_lookup.
+  destruct (lookup k (Descriptor_Annotations d)); [reflexivity|]. apply IH.
+Qed.
+
+(* the copy of the annotations into the map made by the function *)
+Fixpoint copy_into (l acc : amap) : amap :=
+  match l with [] => acc | (k, v) :: l' => copy_into l' (map_set String.eqb k v acc) end.
+
+Lemma add_loop1 d M : forall l acc,
+  gen_notation_go_addUserMetadataToDescriptor_loop1 d M l acc
+  = gadd (map_entries String.eqb M) (set_Descriptor_Annotations (copy_into l acc) d).
+Proof.
+  induction l as [|[k v] l IH]; intros acc.
+  - cbn [gen_notation_go_addUserMetadataToDescriptor_loop1 copy_into]. cbv zeta.
+    rewrite add_loop2. destruct (gadd _ _) as [d' [e|]]; reflexivity.
+  - cbn [gen_notation_go_addUserMetadataToDescriptor_loop1 copy_into fst snd]. cbv zeta. apply IH.
+Qed.
+
+Lemma copy_into_lookup : forall l acc, map_unique String.eqb l = true ->
+  forall x, lookup x (copy_into l acc) = match lookup x l with Some v => Some v | None => lookup x acc end.
+Proof.
+  induction l as [|[k v] l IH]; intros acc U x; [reflexivity|].
+  cbn [map_unique] in U. apply andb_true_iff in U. destruct U as [U1 U2].
+  apply negb_true_iff in U1. rewrite (existsb_key_get String.eqb) in U1. rewrite map_get_lookup in U1.
+  cbn [copy_into lookup]. rewrite (IH _ U2), lookup_map_set.
+  destruct (String.eqb x k) eqn:E.
+  - apply String.eqb_eq in E. subst x. destruct (lookup k l); [discriminate|reflexivity].
+  - reflexivity.
+Qed.
+
+Lemma copy_entries_eqv (a : amap) : ann_eqv (copy_into (map_entries String.eqb a) []) a.
+Proof.
+  intro x. rewrite copy_into_lookup by (apply map_entries_unique_keys; exact string_eqb_spec').
+  rewrite <- !map_get_lookup, (map_get_entries String.eqb string_eqb_spec'), map_get_lookup.
+  destruct (lookup x a); reflexivity.
+Qed.
+
+(* the function: with metadata, the loop runs on a copy of the annotations; without, nothing happens *)
+Lemma gen_add_spec : forall d M,
+  gen_notation_go_addUserMetadataToDescriptor d M
+  = gadd (map_entries String.eqb M)
+         (match M with
+          | [] => d
+          | _ => set_Descriptor_Annotations
+                   (copy_into (map_entries String.eqb (Descriptor_Annotations d)) []) d
+          end).
+Proof.
+  intros d M. unfold gen_notation_go_addUserMetadataToDescriptor. destruct M as [|[k v] M].
+  - cbn. reflexivity.
+  - assert (L : (map_len String.eqb ((k, v) :: M) >? 0)%Z = true).
+    { unfold map_len. cbn [map_entries Datatypes.length]. apply Z.gtb_lt. lia. }
+    rewrite L. cbv zeta. apply add_loop1.
+Qed.
+
+(* [gadd] on a descriptor is the model's loop on a fresh map *)
+Lemma gadd_add_pure : forall es d m, ann_eqv (Descriptor_Annotations d) m ->
+  res_of (snd (gadd es d)) = option_map Some (snd (add_pure es m))
+  /\ ann_eqv (Descriptor_Annotations (fst (gadd es d))) (fst (add_pure es m))
+  /\ same_fields d (fst (gadd es d)).
+Proof.
+  induction es as [|[k v] es IH]; intros d m E; cbn [gadd add_pure].
+  - cbn. auto using same_fields_refl.
+  - destruct (reserved k); [cbn [fst snd]; rewrite class_reserved; auto using same_fields_refl|].
+    rewrite (E k). destruct (lookup k m);
+      [cbn [fst snd]; rewrite class_present; auto using same_fields_refl|].
+    destruct (IH (set_Descriptor_Annotations (map_set String.eqb k v (Descriptor_Annotations d)) d)
+                 (mset k v m)) as [A [B C]].
+    { intro x. rewrite ann_set, lookup_map_set, lookup_mset, (E x). reflexivity. }
+    split; [exact A|]. split; [exact B|].
+    eapply same_fields_trans; [apply same_fields_set|exact C].
+Qed.
+
+(* the code's addUserMetadataToDescriptor against the model's [add_meta false], for every descriptor,
+   every metadata map (any association list: the code ranges over [map_entries M]), every heap and
+   every reference [r] whose content is the descriptor's annotations: same refusal class, the heap
+   is untouched, the annotations of the result are the content of the model's result, the other
+   fields are those of the argument *)
+Lemma gen_add_equiv : forall h r d M,
+  ann_eqv (Descriptor_Annotations d) (aread r h) ->
+  let g := gen_notation_go_addUserMetadataToDescriptor d M in
+  let '(h', r', e) := add_meta false h r (map_entries String.eqb M) in
+  res_of (snd g) = option_map Some e /\ h' = h
+  /\ ann_eqv (Descriptor_Annotations (fst g)) (aread r' h') /\ same_fields d (fst g).
+Proof.
+  intros h r d M E. cbv zeta. rewrite gen_add_spec, add_meta_false.
+  destruct M as [|[k v] M].
+  - cbn. auto using same_fields_refl.
+  - remember (map_entries String.eqb ((k, v) :: M)) as es eqn:Hes.
+    assert (Hne : es <> []) by (subst es; cbn; discriminate).
+    destruct es as [|e0 es0]; [congruence|].
+    destruct (gadd_add_pure (e0 :: es0)
+               (set_Descriptor_Annotations (copy_into (map_entries String.eqb (Descriptor_Annotations d)) []) d)
+               (aread r h)) as [A [B C]].
+    { intro x. rewrite ann_set, copy_entries_eqv. apply E. }
+    split; [exact A|]. split; [reflexivity|]. split; [exact B|].
+    eapply same_fields_trans; [apply same_fields_set|exact C].
+Qed.
+
+(* ---------- generateAnnotations (notation.go:608) ----------
+   Oracles: crypto/sha256.Sum256, encoding/hex.EncodeToString, encoding/json.Marshal on []string,
+   time.Time.UTC / Format, cert.Raw. The map parameter is in/out in the translation (first result:
+   what the caller's map holds afterwards; second: the map returned). *)
+
+Section GenerateAnnotations.
+Variable Cert : Type.
+Variables (utc : Z -> Z) (sha : list Z -> list Z) (hex : list Z -> string)
+          (format : Z -> string -> string) (marshal : list string -> list Z * option err)
+          (raw : Cert -> list Z).
+
+(* the model's input [si_chain]: hex SHA-256 of cert.Raw, as the code computes it *)
+Definition thumb_of (c : Cert) : string := hex (sha (raw c)).
+
+Notation gen_ga := (gen_notation_go_generateAnnotations Cert utc sha hex format marshal raw).
+Notation gen_ga_loop := (gen_notation_go_generateAnnotations_loop1 Cert utc sha hex format marshal raw).
+
+(* the loop over the certificate chain appends one thumbprint per certificate, in order *)
+Lemma ga_loop ann p : forall l acc,
+  gen_ga_loop ann p l acc = gen_ga_loop ann p [] (acc ++ map thumb_of l).
+Proof.
+  induction l as [|c l IH]; intros acc; [rewrite app_nil_r; reflexivity|].
+  cbn [gen_notation_go_generateAnnotations_loop1 map]. cbv zeta. rewrite IH.
+  unfold thumb_of. rewrite <- app_assoc. reflexivity.
+Qed.
+
+Lemma map_len_zero_nil (m : amap) : (map_len String.eqb m =? 0)%Z = true -> m = [].
+Proof.
+  destruct m as [|[k v] m]; [reflexivity|]. unfold map_len. cbn [map_entries Datatypes.length].
+  intro H. apply Z.eqb_eq in H. lia.
+Qed.
+
+(* the code's generateAnnotations against the model's [gen_ann]: same refusal class (nil
+   SignerInfo, zero signing time), and on success the returned map holds, key by key, what the
+   model's map holds: the JSON list of thumbprints, the RFC 3339 signing time, and the plugin's
+   annotations. Hypotheses: the oracles answer like the model of them. *)
+Lemma gen_generateAnnotations_equiv : forall h p pa ann,
+  (forall l, snd (marshal l) = None /\ str_of_bytes (fst (marshal l)) = json_strs l) ->
+  (forall t, time_is_zero t = false ->
+             format (utc t) "2006-01-02T15:04:05Z07:00" = rfc3339 (t / 1000000000)%Z) ->
+  (forall a, pa = PAMap a -> hget a h <> None) ->
+  ann_eqv ann (pa_content pa h) ->
+  let '(h2, x) := gen_ann h (sinfo_of Cert thumb_of p) pa in
+  let '(_, out, e) := gen_ga p ann in
+  match x with
+  | inl c => res_of e = Some (Some c)
+  | inr ra => e = None /\ ann_eqv out (aread ra h2)
+  end.
+Proof.
+  intros h p pa ann Hm Hf Hlive Hann.
+  unfold gen_notation_go_generateAnnotations, sinfo_of.
+  destruct (ptr_val p) as [si|] eqn:Ep; cbn [option_map].
+  2:{ cbn [gen_ann]. leaf "a nil SignerInfo is not refused". }
+  cbv zeta. rewrite ga_loop. cbn [app gen_notation_go_generateAnnotations_loop1].
+  destruct (Hm (map thumb_of (SignerInfo_CertificateChain Cert si))) as [Hm1 Hm2].
+  destruct (marshal (map thumb_of (SignerInfo_CertificateChain Cert si))) as [val me].
+  cbn [fst snd] in Hm1, Hm2. subst me. cbn [GoLib.is_none negb]. cbv zeta.
+  unfold gen_envelope_SigningTime. rewrite Ep. cbv zeta.
+  fold (signing_time_ns Cert si). unfold time_of.
+  destruct (gen_ann h _ pa) as [h2 [c|ra]] eqn:G.
+  - destruct (gen_ann_err_inv _ _ _ _ _ G) as [[X _]|[si' [X [T ->]]]]; [discriminate|].
+    injection X as <-. cbn [si_time] in T.
+    destruct (time_is_zero (signing_time_ns Cert si)); [|discriminate].
+    destruct (map_len String.eqb ann =? 0)%Z; leaf "a zero signing time is not refused as missing".
+  - destruct (gen_ann_ok_inv _ _ _ _ _ G) as [si' [tm [X T]]]. injection X as <-. cbn [si_time] in T.
+    destruct (time_is_zero (signing_time_ns Cert si)) eqn:Z0; [discriminate|]. injection T as <-.
+    pose proof (gen_ann_content _ _ _ _ _ _ Hlive G eq_refl) as C. cbn [si_chain] in C.
+    assert (R : forall a0, ann_eqv a0 ann ->
+              ann_eqv (map_set String.eqb "org.opencontainers.image.created"
+                         (format (utc (signing_time_ns Cert si)) "2006-01-02T15:04:05Z07:00")
+                         (map_set String.eqb "io.cncf.notary.x509chain.thumbprint#S256" (str_of_bytes val) a0))
+                      (aread ra h2)).
+    { intros a0 E0 k. rewrite C, !lookup_map_set, Hm2, (Hf _ Z0), (E0 k), (Hann k).
+      unfold k_created, k_thumb. reflexivity. }
+    destruct (map_len String.eqb ann =? 0)%Z eqn:L; cbn [GoLib.is_none negb]; split; try reflexivity;
+      apply R; [|intro; reflexivity].
+    apply map_len_zero_nil in L. subst ann. intro; reflexivity.
+Qed.
+End GenerateAnnotations.
+
+(* ---------- notation.SignOCI (notation.go:160) ----------
+   Oracles: the signer (Sign, the signerAnnotation assertion, PluginAnnotations), the repository
+   (Resolve, PushSignature), registry.ParseReference, digest.Parse,
+   ( *remote.ReferrersError).IsReferrersIndexDelete, and those of generateAnnotations. *)
+
+Section SignOCI.
+Variables (Pool Cert : Type).
+Variables (utc : Z -> Z) (sha : list Z -> list Z) (hex : list Z -> string)
+          (format : Z -> string -> string) (marshal : list string -> list Z * option err)
+          (raw : Cert -> list Z).
+Variable Signer : Type.
+Variable sign : Signer -> v1_Descriptor -> notation_go_SignerSignOptions Pool Cert
+                -> list Z * ptr (signature_SignerInfo Cert) * option err.
+Variable SA : Type.
+Variable plugin_ann : SA -> amap.
+Variable Repo : Type.
+Variable resolve : Repo -> string -> v1_Descriptor * option err.
+Variable push : Repo -> string -> list Z -> v1_Descriptor -> amap -> v1_Descriptor * v1_Descriptor * option err.
+Variable parse_ref : string -> registry_Reference * option err.
+Variable parse_dg : string -> string * option err.
+Variable is_refdel : err -> bool.
+Variable as_sa : Signer -> option SA.
+
+Notation gen_sign_oci :=
+  (gen_notation_go_SignOCI Pool Cert utc sha hex format marshal raw Signer sign SA plugin_ann
+     Repo resolve push parse_ref parse_dg is_refdel as_sa).
+Notation vsa_S := (gen_notation_go_validateSignArguments_notation_Signer Pool Cert Signer).
+Notation thumb := (thumb_of Cert sha hex raw).
+
+Definition zero_desc : v1_Descriptor := mk_Descriptor "" "" 0 [] [] [] PNil "".
+
+Definition sso (o : notation_go_SignOptions Pool Cert) := SignOptions_SignerSignOptions Pool Cert o.
+
+(* the instance of validateSignArguments SignOCI calls *)
+Lemma vsa_S_equiv : forall (c : call_in) (signer : ptr Signer) o,
+  ci_signer_nil c = ptr_is_nil signer ->
+  ci_expiry c = SignerSignOptions_ExpiryDuration Pool Cert o ->
+  ci_mt c = SignerSignOptions_SignatureMediaType Pool Cert o ->
+  res_of (vsa_S signer o) = option_map Some (validate c).
+Proof.
+  intros c signer o Hs He Hm.
+  unfold gen_notation_go_validateSignArguments_notation_Signer, validate.
+  rewrite Hs, He, Hm, ptr_is_nil_val.
+  destruct (ptr_val signer); cbn [GoLib.is_none]; [|leaf "a nil signer is not refused first"].
+  destruct (SignerSignOptions_ExpiryDuration Pool Cert o <? 0)%Z; [leaf "negative expiry"|].
+  destruct (Z.rem (SignerSignOptions_ExpiryDuration Pool Cert o) 1000000000 =? 0)%Z; cbn [negb];
+    [|leaf "expiry that is not a whole number of seconds"].
+  destruct (String.eqb (SignerSignOptions_SignatureMediaType Pool Cert o) "");
+    [leaf "empty signature media type"|].
+  cbv zeta.
+  pose proof (gen_sig_media_type_equiv (SignerSignOptions_SignatureMediaType Pool Cert o)) as G.
+  destruct (gen_notation_go_validateSigMediaType _) as [e|]; cbn [GoLib.is_none negb];
+    rewrite G; destruct (valid_mt _); reflexivity.
+Qed.
+
+
+(* a Go descriptor value against the model's descriptor at heap h / against an observed descriptor *)
+Definition drel (h : heap) (d : desc) (g : v1_Descriptor) : Prop :=
+  Descriptor_MediaType g = d_mt d /\ Descriptor_Digest g = d_dg d /\ Descriptor_Size g = d_sz d
+  /\ ann_eqv (Descriptor_Annotations g) (aread (d_ann d) h).
+
+Definition ddrel (x : ddesc) (g : v1_Descriptor) : Prop :=
+  Descriptor_MediaType g = dd_mt x /\ Descriptor_Digest g = dd_dg x /\ Descriptor_Size g = dd_sz x
+  /\ ann_eqv (Descriptor_Annotations g) (dd_ann x).
+
+Definition RE : string := "*remote.ReferrersError".
+
+Definition sign_agrees (ans : list Z * ptr (signature_SignerInfo Cert) * option err) (s : sscript) : Prop :=
+  match s with
+  | SErr => GoLib.is_none (snd ans) = false
+  | SOk sig info => snd ans = None /\ str_of_bytes (fst (fst ans)) = sig
+                    /\ sinfo_of Cert thumb (snd (fst ans)) = info
+  end.
+
+Definition push_agrees (ans : v1_Descriptor * v1_Descriptor * option err) (s : pscript) : Prop :=
+  match s with
+  | PushOK dg => snd ans = None /\ Descriptor_Digest (snd (fst ans)) = dg
+  | PushErr => GoLib.is_none (snd ans) = false
+               /\ match err_find RE (snd ans) with Some f => is_refdel f = false | None => True end
+  | PushRefDel dg => (exists f, err_find RE (snd ans) = Some f /\ is_refdel f = true)
+                     /\ Descriptor_Digest (snd (fst ans)) = dg
+  end.
+
+(* what SignOCI returns against the model's trace *)
+Definition result_rel (t : trace) (r : v1_Descriptor * v1_Descriptor * option err) : Prop :=
+  let '(art, sigd, e) := r in
+  match t_art t with None => art = zero_desc | Some x => ddrel x art end
+  /\ match t_res t with
+     | ROk => e = None /\ Descriptor_Digest sigd = t_sigdg t
+     | RRefDel => (exists f, err_find RE e = Some f /\ is_refdel f = true)
+                  /\ Descriptor_Digest sigd = t_sigdg t
+     | ESigner => GoLib.is_none e = false /\ sigd = zero_desc
+     | r => res_of e = Some (Some r) /\ sigd = zero_desc
+     end.
+
+Lemma vsa_S_none_signer : forall (signer : ptr Signer) o,
+  vsa_S signer o = None -> exists sv, ptr_val signer = Some sv.
+Proof.
+  intros signer o H. unfold gen_notation_go_validateSignArguments_notation_Signer in H.
+  destruct (ptr_val signer) as [sv|]; [exists sv; reflexivity|discriminate].
+Qed.
+
+(* generateAnnotations does not touch the annotation map of a resolved descriptor (the signer's
+   PluginAnnotations() map is none of the repository's: [wf_call]) *)
+Lemma gen_ann_keeps_resolved : forall tbl h c info h2 x ref d,
+  wf_call h tbl c = true -> gen_ann h info (ci_pa c) = (h2, x) ->
+  lookup_tbl ref tbl = Some d -> deep h2 d = deep h d.
+Proof.
+  intros tbl h c info h2 x ref d W G L. apply deep_ext. intros a Ea.
+  destruct (gen_ann_frame _ _ _ _ _ G) as (_ & F & _). apply F. intros Ep.
+  destruct (wf_call_sep _ _ _ _ W Ep) as (_ & N & _). apply N.
+  eapply table_addrs_in; eassumption.
+Qed.
+
+(* "the arguments are those of the call record and every oracle answers what the call record says
+   it answers": [c] = the model's description of the call, [t] = the trace the model computes.
+   The signer and the repository are only constrained on the arguments the MODEL says they
+   receive ([t_signs], [t_pushes]): that the theorem below is provable shows that the code hands
+   them exactly those. *)
+Definition so_agree (tbl : table) (h : heap) (c : call_in) (t : trace)
+           (signer : ptr Signer) (repo : ptr Repo) (o : notation_go_SignOptions Pool Cert) : Prop :=
+  (* the signer's PluginAnnotations() map is its own (FreshResults in the target table) *)
+  wf_call h tbl c = true
+  (* the arguments *)
+  /\ ci_signer_nil c = ptr_is_nil signer /\ ci_repo_nil c = ptr_is_nil repo
+  /\ ci_ref c = SignOptions_ArtifactReference Pool Cert o
+  /\ ci_expiry c = SignerSignOptions_ExpiryDuration Pool Cert (sso o)
+  /\ ci_mt c = SignerSignOptions_SignatureMediaType Pool Cert (sso o)
+  /\ meta_es c h = map_entries String.eqb (SignOptions_UserMetadata Pool Cert o)
+  (* registry.ParseReference, digest.Parse *)
+  /\ ci_parse c = (if GoLib.is_none (snd (parse_ref (ci_ref c)))
+                   then Some (Reference_Reference (fst (parse_ref (ci_ref c)))) else None)
+  /\ ci_isdigest c = GoLib.is_none (snd (parse_dg (eff_ref c)))
+  (* Repository.Resolve *)
+  /\ (forall rv, ptr_val repo = Some rv ->
+        match lookup_tbl (eff_ref c) tbl with
+        | None => GoLib.is_none (snd (resolve rv (eff_ref c))) = false
+        | Some d => snd (resolve rv (eff_ref c)) = None /\ drel h d (fst (resolve rv (eff_ref c)))
+        end)
+  (* Signer.Sign, on the descriptor the model says it is handed *)
+  /\ (forall sv sc g, ptr_val signer = Some sv -> t_signs t = [sc] -> ddrel (sc_desc sc) g ->
+        sign_agrees (sign sv g (sso o)) (ci_sign c))
+  (* signer.(signerAnnotation), PluginAnnotations() *)
+  /\ (forall sv, ptr_val signer = Some sv ->
+        match ci_pa c with
+        | PANone => as_sa sv = None
+        | p => exists sa, as_sa sv = Some sa /\ ann_eqv (plugin_ann sa) (pa_content p h)
+        end)
+  (* json.Marshal on []string, Time.UTC().Format(time.RFC3339) *)
+  /\ (forall l, snd (marshal l) = None /\ str_of_bytes (fst (marshal l)) = json_strs l)
+  /\ (forall t, time_is_zero t = false ->
+                format (utc t) "2006-01-02T15:04:05Z07:00" = rfc3339 (t / 1000000000)%Z)
+  (* Repository.PushSignature, on the arguments the model says it receives *)
+  /\ (forall rv pc sigb g ann, ptr_val repo = Some rv -> t_pushes t = [pc] ->
+        str_of_bytes sigb = pc_sig pc -> ddrel (pc_subject pc) g -> ann_eqv ann (pc_ann pc) ->
+        push_agrees (push rv (pc_mt pc) sigb g ann) (ci_push c)).
+
+(* notation.SignOCI as the code has it against the model's [sign_oci false]: for every call, the
+   code returns (no run-time panic) what the model's trace says: the same refusal class, the zero
+   descriptors on a refusal, the resolved descriptor and the digest of the pushed manifest on
+   success and on a failed referrers-index deletion. *)
+Theorem gen_SignOCI_equiv : forall tbl h sp c st' t signer repo o,
+  sign_oci false tbl (mk_state h sp) c = (st', t) ->
+  so_agree tbl h c t signer repo o ->
+  exists r, gen_sign_oci signer repo o = Some r /\ result_rel t r.
+Proof.
+  intros tbl h sp c st' t signer repo o Hrun
+         (Hwf & Hsn & Hrn & Href & Hexp & Hmt & Hmeta & Hparse & Hisdg & Hres & Hsign & Hpa & Hmar & Hfmt & Hpush).
+  pose proof (vsa_S_equiv c signer (sso o) Hsn Hexp Hmt) as Hv.
+  assert (Eeff : (if GoLib.is_none (snd (parse_ref (ci_ref c)))
+                  then Reference_Reference (fst (parse_ref (ci_ref c))) else ci_ref c) = eff_ref c).
+  { unfold eff_ref. rewrite Hparse. destruct (GoLib.is_none _); reflexivity. }
+  unfold gen_notation_go_SignOCI. cbv zeta. fold (sso o). fold zero_desc. rewrite <- Href.
+  unfold sign_oci in Hrun. cbn [s_heap s_stored] in Hrun. cbv beta zeta in Hrun.
+  (* validateSignArguments *)
+  destruct (validate c) as [e|] eqn:Eval.
+  { pose proof (validate_class _ _ Eval) as RS. inversion Hrun; subst st' t; clear Hrun.
+    destruct (vsa_S signer (sso o)) as [ve|]; [|discriminate]. cbn [GoLib.is_none negb].
+    eexists; split; [reflexivity|]. cbn. split; [reflexivity|].
+    destruct e; try discriminate RS; (split; [exact Hv|reflexivity]). }
+  destruct (vsa_S signer (sso o)) as [ve|] eqn:Ev; [discriminate|]. cbn [GoLib.is_none negb].
+  destruct (vsa_S_none_signer _ _ Ev) as [sv Esv].
+  (* nil repository *)
+  destruct (ci_repo_nil c) eqn:Ern; rewrite ptr_is_nil_val in Hrn.
+  { inversion Hrun; subst st' t; clear Hrun. destruct (ptr_val repo); [discriminate Hrn|].
+    eexists; split; [reflexivity|]. cbn. split; [reflexivity|].
+    split; [leaf "a nil repository is not refused"|reflexivity]. }
+  destruct (ptr_val repo) as [rv|] eqn:Erepo; [|discriminate Hrn]. specialize (Hres rv eq_refl).
+  (* ParseReference: either way the code goes on with [eff_ref c] *)
+  eassert (Main : _);
+    [|destruct (parse_ref (ci_ref c)) as [rf pe]; cbn [fst snd] in Eeff;
+      destruct (GoLib.is_none pe); rewrite Eeff; exact Main].
+  clear Eeff.
+  (* Resolve *)
+  destruct (lookup_tbl (eff_ref c) tbl) as [d|] eqn:El.
+  2:{ inversion Hrun; subst st' t; clear Hrun. destruct (resolve rv (eff_ref c)) as [amd re]. cbn [fst snd] in Hres.
+      destruct re; [|discriminate]. cbn [GoLib.is_none negb].
+      eexists; split; [reflexivity|]. cbn. split; [reflexivity|].
+      split; [leaf "a failed Resolve is not reported as such"|reflexivity]. }
+  destruct Hres as [Hr1 (Dm & Dd & Ds & Da)].
+  destruct (resolve rv (eff_ref c)) as [amd re]. cbn [fst snd] in Hr1, Dm, Dd, Ds, Da. subst re.
+  cbn [GoLib.is_none negb]. unfold gen_go_digest_Digest_String. rewrite Dd.
+  (* the digest pin *)
+  rewrite Hisdg in Hrun.
+  destruct (negb (eff_ref c =? d_dg d) && GoLib.is_none (snd (parse_dg (eff_ref c)))) eqn:Epin.
+  { inversion Hrun; subst st' t; clear Hrun. apply andb_true_iff in Epin. destruct Epin as [P1 P2]. rewrite P1.
+    destruct (parse_dg (eff_ref c)) as [pdx pe3]. cbn [snd] in P2. rewrite P2.
+    eexists; split; [reflexivity|]. cbn. split; [reflexivity|].
+    split; [leaf "a digest reference resolving to another digest is not refused"|reflexivity]. }
+  eassert (Main : _);
+    [|destruct (negb (eff_ref c =? d_dg d)); cbn [andb] in Epin;
+      [destruct (parse_dg (eff_ref c)) as [pdx pe3]; cbn [snd] in Epin; rewrite Epin; exact Main
+      |exact Main]].
+  clear Epin.
+  (* addUserMetadataToDescriptor *)
+  fold (meta_es c h) in Hrun.
+  pose proof (gen_add_equiv h (d_ann d) amd (SignOptions_UserMetadata Pool Cert o) Da) as GA.
+  cbv zeta in GA. rewrite <- Hmeta in GA.
+  destruct (add_meta false h (d_ann d) (meta_es c h)) as [[h1 r1] oe] eqn:Ea.
+  destruct GA as (G1 & Eh & G3 & G4). subst h1.
+  destruct (gen_notation_go_addUserMetadataToDescriptor amd _) as [d2s ae]. cbn [fst snd] in G1, G3, G4.
+  destruct oe as [e|].
+  { inversion Hrun; subst st' t; clear Hrun. destruct (add_meta_class _ _ _ _ _ _ Ea) as [-> | ->];
+      (destruct ae; [|discriminate]); cbn [GoLib.is_none negb];
+      (eexists; split; [reflexivity|]; cbn; split; [reflexivity|]; split; [exact G1|reflexivity]). }
+  destruct ae; [discriminate|]. cbn [GoLib.is_none negb]. rewrite Esv.
+  (* Signer.Sign: handed the resolved descriptor plus the metadata *)
+  assert (Tsigns : t_signs t = [mk_sc c h d r1]).
+  { destruct (ci_sign c) as [|sig0 info0]; [inversion Hrun; reflexivity|].
+    destruct (gen_ann h info0 (ci_pa c)) as [h2 [e|ra]]; [inversion Hrun; reflexivity|].
+    destruct (ci_push c); inversion Hrun; reflexivity. }
+  assert (REL : ddrel (sc_desc (mk_sc c h d r1)) d2s).
+  { destruct G4 as (F1 & F2 & F3 & _). unfold ddrel, mk_sc, deep. cbn.
+    repeat split; try congruence; try exact G3. }
+  specialize (Hsign sv _ d2s Esv Tsigns REL). clear Tsigns REL.
+  destruct (ci_sign c) as [|sig info] eqn:Ecs; cbn [sign_agrees] in Hsign.
+  { inversion Hrun; subst st' t; clear Hrun.
+    destruct (sign sv d2s (sso o)) as [[sigb ip] se]. cbn [snd] in Hsign.
+    destruct se; [|discriminate]. cbn [GoLib.is_none negb].
+    eexists; split; [reflexivity|]. cbn. repeat split; reflexivity. }
+  destruct Hsign as (S1 & S2 & S3). destruct (sign sv d2s (sso o)) as [[sigb ip] se].
+  cbn [fst snd] in S1, S2, S3. subst se. cbn [GoLib.is_none negb].
+  (* signer.(signerAnnotation) and PluginAnnotations() *)
+  assert (Hlive : forall a, ci_pa c = PAMap a -> hget a h <> None).
+  { intros a E. exact (proj1 (wf_call_sep _ _ _ _ Hwf E)). }
+  specialize (Hpa sv Esv). unfold iface_assert. rewrite Esv.
+  destruct (ci_pa c) as [| |a] eqn:Epa.
+  1: rewrite Hpa; assert (A2 : ann_eqv [] (pa_content PANone h)) by (intro; reflexivity).
+  2,3: destruct Hpa as [sa [A1 A2]]; rewrite A1; cbn [ptr_val].
+  (* generateAnnotations *)
+  all: match goal with |- context [gen_notation_go_generateAnnotations _ _ _ _ _ _ _ ?p ?ann] =>
+         pose proof (gen_generateAnnotations_equiv Cert utc sha hex format marshal raw h p _ ann
+                       Hmar Hfmt Hlive A2) as GG end;
+       rewrite S3 in GG.
+  all: match type of GG with context [gen_ann ?hh ?ii ?P] =>
+         destruct (gen_ann hh ii P) as [h2 [e|ra]] eqn:Eg end.
+  1,3,5: inversion Hrun; subst st' t; clear Hrun;
+         match type of GG with context [gen_notation_go_generateAnnotations _ _ _ _ _ _ _ ?p ?ann] =>
+           destruct (gen_notation_go_generateAnnotations Cert utc sha hex format marshal raw p ann)
+             as [[pa' anns] ge] end;
+         (destruct ge; [|discriminate]); cbn [GoLib.is_none negb];
+         (eexists; split; [reflexivity|]); cbn; (split; [reflexivity|]);
+         destruct (gen_ann_class _ _ _ _ _ Eg) as [-> | ->]; (split; [exact GG|reflexivity]).
+  all: assert (Hkeep : deep h2 d = deep h d)
+         by (rewrite <- Epa in Eg; eapply gen_ann_keeps_resolved; eassumption).
+  all: match type of GG with context [gen_notation_go_generateAnnotations _ _ _ _ _ _ _ ?p ?ann] =>
+         destruct (gen_notation_go_generateAnnotations Cert utc sha hex format marshal raw p ann)
+           as [[pa' anns] ge] end;
+       destruct GG as [-> GG2]; cbn [GoLib.is_none negb].
+  (* PushSignature: the resolved descriptor is the subject *)
+  all: assert (Tpushes : t_pushes t = [mk_pc c sig h2 d ra])
+         by (destruct (ci_push c); inversion Hrun; reflexivity).
+  all: assert (SUBJ : ddrel (deep h2 d) amd)
+         by (rewrite Hkeep; unfold ddrel, deep; cbn; repeat split; assumption).
+  all: specialize (Hpush rv _ sigb amd anns eq_refl Tpushes S2 SUBJ GG2); clear Tpushes;
+       cbn [pc_mt mk_pc] in Hpush; rewrite Hmt in Hpush.
+  all: destruct (ci_push c) as [dg| |dg] eqn:Ecp; cbn [push_agrees] in Hpush;
+       inversion Hrun; subst st' t; clear Hrun;
+       match type of Hpush with context [push ?a ?b ?c0 ?d0 ?e0] =>
+         destruct (push a b c0 d0 e0) as [[bd smd] pe] end; cbn [fst snd] in Hpush.
+  (* pushed *)
+  1,4,7: destruct Hpush as [P1 P2]; subst pe; cbn [GoLib.is_none negb];
+         (eexists; split; [reflexivity|]); cbn; (split; [exact SUBJ|]); (split; [reflexivity|exact P2]).
+  (* push failed *)
+  1,3,5: destruct Hpush as [P1 P2]; (destruct pe as [pe|]; [|discriminate P1]); cbn [GoLib.is_none negb];
+         rewrite <- err_find_as; unfold RE in P2;
+         (destruct (err_find "*remote.ReferrersError" (Some pe)) as [f|]; cbn [GoLib.is_some obind];
+          [rewrite P2|]);
+         (eexists; split; [reflexivity|]); cbn; (split; [reflexivity|]);
+         (split; [leaf "a failed push is not reported as ErrorPushSignatureFailed"|reflexivity]).
+  (* pushed, the referrers index deletion failed: descriptors and error are returned *)
+  all: destruct Hpush as [[f [F1 F2]] P3]; unfold RE in F1;
+       (destruct pe as [pe|]; [|discriminate F1]); cbn [GoLib.is_none negb];
+       rewrite <- err_find_as, F1; cbn [GoLib.is_some obind]; rewrite F2;
+       (eexists; split; [reflexivity|]); cbn; (split; [exact SUBJ|]);
+       (split; [exists f; split; [exact F1|exact F2]|exact P3]).
+Qed.
+
+
+(* a call the model refuses (nothing returned, signer not reached) is refused by the code:
+   zero descriptors and a non-nil error *)
+Corollary gen_SignOCI_refused : forall tbl h sp c st' t signer repo o,
+  sign_oci false tbl (mk_state h sp) c = (st', t) ->
+  so_agree tbl h c t signer repo o ->
+  t_art t = None -> reached_signer (t_res t) = false ->
+  exists e, gen_sign_oci signer repo o = Some (zero_desc, zero_desc, Some e)
+            /\ class_of_err e = Some (t_res t).
+Proof.
+  intros tbl h sp c st' t signer repo o Hrun Hag Hart Hrs.
+  destruct (gen_SignOCI_equiv _ _ _ _ _ _ _ _ _ Hrun Hag) as [[[art sigd] e] [G R]].
+  unfold result_rel in R. rewrite Hart in R. destruct R as [-> R].
+  destruct (t_res t); try discriminate Hrs; destruct R as [R ->];
+    (destruct e as [e|]; [|discriminate R]); exists e; (split; [exact G|]);
+    cbn in R; congruence.
+Qed.
+
+(* C11_refuses_digest on the code: a digest reference that resolves to another digest *)
+Corollary gen_SignOCI_refuses_digest : forall tbl h sp c st' t signer repo o d,
+  sign_oci false tbl (mk_state h sp) c = (st', t) ->
+  so_agree tbl h c t signer repo o ->
+  validate c = None -> ci_repo_nil c = false ->
+  lookup_tbl (eff_ref c) tbl = Some d -> eff_ref c <> d_dg d -> ci_isdigest c = true ->
+  exists e, gen_sign_oci signer repo o = Some (zero_desc, zero_desc, Some e)
+            /\ class_of_err e = Some EDigestMismatch.
+Proof.
+  intros tbl h sp c st' t signer repo o d Hrun Hag Hv Hr Hl Hne Hd.
+  destruct (refuses_digest _ _ _ _ _ _ Hrun Hl Hne Hd) as [(_ & _ & _ & Hart & Hrs) Hc].
+  specialize (Hc Hv Hr). rewrite <- Hc. eapply gen_SignOCI_refused; eassumption.
+Qed.
+
+End SignOCI.
+(* ---------- non-vacuity: the hypotheses of gen_SignOCI_equiv are satisfiable ---------- *)
+
+Lemma str_of_bytes_of_str s : str_of_bytes (bytes_of_str s) = s.
+Proof.
+  unfold str_of_bytes, bytes_of_str, B, bytes. rewrite !map_map.
+  rewrite <- (string_of_list_ascii_of_string s) at 2. f_equal.
+  induction (list_ascii_of_string s) as [|a l IH]; [reflexivity|]. cbn [map].
+  rewrite N2Z.id, ascii_N_embedding, IH. reflexivity.
+Qed.
+
+Module Wit.
+Definition D : v1_Descriptor := mk_Descriptor "mt" "sha256:aa" 7 [] [("a", "1")] [] PNil "".
+Definition MD : v1_Descriptor := mk_Descriptor "m" "sha256:ff" 1 [] [] [] PNil "".
+Definition an_err : option err := Some (Err "x" "" []).
+Definition utc (t : Z) : Z := t.
+Definition sha (l : list Z) : list Z := l.
+Definition hex (l : list Z) : string := "aa".
+Definition format (t : Z) (layout : string) : string := rfc3339 (t / 1000000000)%Z.
+Definition marshal (l : list string) : list Z * option err := (bytes_of_str (json_strs l), None).
+Definition raw (c : unit) : list Z := [].
+Definition info : signature_SignerInfo unit :=
+  mk_SignerInfo unit (mk_SignedAttributes "" 1700000000000000000%Z 0%Z []) (mk_UnsignedAttributes [] "") 0%Z [tt] [].
+Definition sign (s : unit) (d : v1_Descriptor) (o : notation_go_SignerSignOptions unit unit)
+  : list Z * ptr (signature_SignerInfo unit) * option err := ([1%Z], PNew info, None).
+Definition plugin_ann (s : unit) : amap := [].
+Definition resolve (r : unit) (ref : string) : v1_Descriptor * option err :=
+  if String.eqb ref "v1" then (D, None) else (zero_desc, an_err).
+Definition push (r : unit) (mt : string) (sig : list Z) (subject : v1_Descriptor) (ann : amap)
+  : v1_Descriptor * v1_Descriptor * option err := (zero_desc, MD, None).
+Definition parse_ref (s : string) : registry_Reference * option err := (mk_Reference "" "" "", an_err).
+Definition parse_dg (s : string) : string * option err := ("", an_err).
+Definition is_refdel (e : err) : bool := false.
+Definition as_sa (s : unit) : option unit := None.
+Definition opts : notation_go_SignOptions unit unit :=
+  mk_SignOptions unit unit
+    (mk_SignerSignOptions unit unit mt_jws 0%Z [] "" (fun _ => (PNil, None)) tt (fun _ => ([], None)))
+    "v1" [("k", "v")].
+Definition tbl : table := [("v1", mk_desc "mt" "sha256:aa" 7 "" (AShared 0%N))].
+Definition hp : heap := [(0%N, [("a", "1")]); (1%N, [("k", "v")])].
+Definition call : call_in :=
+  mk_call_in false false "v1" None false mt_jws 0 "" (Some 1%N) None None
+    (SOk (str_of_bytes [1%Z]) (Some (mk_sinfo ["aa"] (Some 1700000000%Z)))) PANone (PushOK "sha256:ff").
+Definition tr : trace := snd (sign_oci false tbl (mk_state hp []) call).
+End Wit.
+
+Lemma so_agree_witness :
+  so_agree unit unit Wit.utc Wit.sha Wit.hex Wit.format Wit.marshal Wit.raw unit Wit.sign unit
+    Wit.plugin_ann unit Wit.resolve Wit.push Wit.parse_ref Wit.parse_dg Wit.is_refdel Wit.as_sa
+    Wit.tbl Wit.hp Wit.call Wit.tr (PNew tt) (PNew tt) Wit.opts
+  /\ t_res Wit.tr = ROk
+  /\ gen_notation_go_SignOCI unit unit Wit.utc Wit.sha Wit.hex Wit.format Wit.marshal Wit.raw unit Wit.sign
+       unit Wit.plugin_ann unit Wit.resolve Wit.push Wit.parse_ref Wit.parse_dg Wit.is_refdel Wit.as_sa
+       (PNew tt) (PNew tt) Wit.opts
+     = Some (Wit.D, Wit.MD, None).
+Proof.
+  split; [|split; [vm_compute; reflexivity|vm_compute; reflexivity]].
+  unfold so_agree.
+  split; [vm_compute; reflexivity|]. split; [reflexivity|]. split; [reflexivity|].
+  split; [reflexivity|]. split; [reflexivity|]. split; [reflexivity|]. split; [vm_compute; reflexivity|].
+  split; [reflexivity|]. split; [reflexivity|].
+  split. { intros rv _. vm_compute. repeat split. }
+  split. { intros sv sc g _ _ _. vm_compute. repeat split. }
+  split. { intros sv _. reflexivity. }
+  split. { intro l. split; [reflexivity|apply str_of_bytes_of_str]. }
+  split. { intros t _. reflexivity. }
+  intros rv pc sigb g ann _ _ _ _ _. vm_compute. split; reflexivity.
 Qed.
